@@ -523,7 +523,30 @@ def error_discipline(ctx, tmp, viol):
     from lsst.daf.butler._exceptions import ButlerUserError, InvalidQueryError
 
     b = repo.make_butler(os.path.join(tmp, "r"))
-    repo.basic_dimensions(b)
+    repo.basic_dimensions(b, detectors=tuple(range(1, 13)))
+    # documented values of range literals, observed through the query API (inclusive ends, stride anchored at the start)
+    for a, z, st in [(1, 8, 2), (1, 9, 2), (2, 11, 3), (3, 3, None), (1, 12, 5), (1, 12, 1), (2, 7, 4), (5, 12, 7)]:
+        lit = f"{a}..{z}" + (f":{st}" if st else "")
+        want = {x for x in range(1, 13) if a <= x <= z and (x - a) % (st or 1) == 0}
+        for neg in (False, True):
+            w = f"detector {'NOT ' if neg else ''}IN ({lit})"
+            got = {d["detector"] for d in b.query_data_ids(["detector"], where=w, instrument="I", explain=False)}
+            ctx.evaluations += 1
+            exp = set(range(1, 13)) - want if neg else want
+            if got != exp:
+                viol(f"where={w!r} selects detectors {sorted(got)}, the documented meaning of the range literal gives {sorted(exp)}",
+                     f"range-semantics:{lit}:{neg}", {"kind": "where", "where": w, "got": sorted(got), "want": sorted(exp)})
+    # a bind name that is not bound is an error even when it happens to be spelled like an identifier
+    for w in ["detector = :detector", "detector IN (:detector)", "instrument = :instrument", "detector = :full_name", "detector != :null"]:
+        ctx.evaluations += 1
+        try:
+            rows = list(b.query_data_ids(["detector"], where=w, instrument="I", explain=False))
+            viol(f"where={w!r} without a bind value is accepted ({len(rows)} rows) instead of being rejected: the bind name was given another meaning",
+                 f"unbound-bind:{w}", {"kind": "where", "where": w})
+        except InvalidQueryError:
+            pass
+        except Exception as e:
+            viol(f"where={w!r} without a bind value raised {type(e).__name__}", f"unbound-bind-error:{w}", {"kind": "where", "where": w})
     bad = [
         "detector =", "detector = = 1", "(detector = 1", "detector = 1)", "detector $ 1", "detector = 'a", "detector IN", "detector IN ()",
         "5", "1..2", "detector", "'abc'", "detector + 1", "NOT 5", "(detector = 1) IN (1)", "NULL IN (1)", "detector IN (NULL)",
